@@ -581,3 +581,35 @@ S('MEMO_array_plain_extra_state', ['C14', 'C18', 'C09'], 'array_.py', "        s
 V('ESC_colour_instance_cache', ['C19'], 'bitstring_options.py', "        x = super().__new__(cls)\n        if use_colour:",
   "        try:\n            return cls._instances[use_colour]\n        except (AttributeError, KeyError):\n            pass\n        x = super().__new__(cls)\n        cls._instances = {**getattr(cls, '_instances', {}), use_colour: x}\n        if use_colour:", ['ESC'])
 S('ESC_colour_rename_local', ['C19'], 'bitstring_options.py', "        x = super().__new__(cls)\n        if use_colour:", "        colour = x = super().__new__(cls)\n        if use_colour:")
+
+# ---- H1: endian selection written as a table
+_EC_OLD = "        endian = m.group('endian')\n        f = m.group('fmt')\n        if endian == '>':\n            fmt = REPLACEMENTS_BE[f]\n        elif endian == '<':\n            fmt = REPLACEMENTS_LE[f]\n        else:\n            assert endian in '=@'\n            fmt = REPLACEMENTS_NE[f]\n        return parse_name_length_token(fmt)"
+V('H1_endian_table_default_be', ['C18', 'C05'], 'utils.py', _EC_OLD,
+  "        replacements = {'>': REPLACEMENTS_BE, '<': REPLACEMENTS_LE, '=': REPLACEMENTS_NE}.get(m.group('endian'), REPLACEMENTS_BE)\n        return parse_name_length_token(replacements[m.group('fmt')])", ['H1'])
+S('H1_endian_table_complete', ['C18', 'C05'], 'utils.py', _EC_OLD,
+  "        replacements = {'>': REPLACEMENTS_BE, '<': REPLACEMENTS_LE, '=': REPLACEMENTS_NE, '@': REPLACEMENTS_NE}[m.group('endian')]\n        return parse_name_length_token(replacements[m.group('fmt')])")
+
+
+# ---- extract-function refactoring of a function named in the reason tables (reasons follow the moved constructs)
+def _extract_struct_tokens(src):
+    old = ("    endian = m.group('endian')\n    # Split the format string into a list of 'q', '4h' etc.\n"
+           "    formatlist = re.findall(STRUCT_SPLIT_RE, m.group('fmt'))")
+    new = ("    return list(_struct_tokens(m.group('endian'), m.group('fmt')))\n\n\n@functools.lru_cache(CACHE_SIZE)\n"
+           "def _struct_tokens(endian: str, fmt: str) -> List[str]:\n    # Split the format string into a list of 'q', '4h' etc.\n"
+           "    formatlist = re.findall(STRUCT_SPLIT_RE, fmt)")
+    return src.replace(old, new) if src.count(old) == 1 else None
+
+
+S('PKG_S_extract_struct_tokens_helper', ALL + ['C05'], 'utils.py', fn=_extract_struct_tokens)
+
+# ---- SCALE
+V('SCALE_read_relooks_up_dtype', ['C11', 'C02', 'C06'], 'bitstream.py', "            val = dtype.read_fn(self, self._pos)\n            self._pos += dtype.bitlength",
+  "            val, self._pos = self._readtoken(dtype.name, self._pos, dtype.length)", ['SCALE'])
+S('SCALE_read_relooks_up_unscaled_only', ['C11', 'C02', 'C06'], 'bitstream.py', "            val = dtype.read_fn(self, self._pos)\n            self._pos += dtype.bitlength",
+  "            if dtype.scale is None:\n                val, self._pos = self._readtoken(dtype.name, self._pos, dtype.length)\n            else:\n                val = dtype.read_fn(self, self._pos)\n                self._pos += dtype.bitlength")
+
+# ---- BYTEWIN
+V('BYTEWIN_end_rounded_up', ['C07'], 'bitstore.py', "            end_byte = end // 8\n", "            end_byte = (end + 7) // 8\n", ['BYTEWIN'])
+V('BYTEWIN_start_rounded_down', ['C07'], 'bitstore.py', "            start_byte = (start + 7) // 8\n", "            start_byte = start // 8\n", ['BYTEWIN'])
+V('BYTEWIN_raw_end', ['C07'], 'bitstore.py', "            b = self._bitarray[start_byte * 8: end_byte * 8].tobytes()", "            b = self._bitarray[start_byte * 8: end].tobytes()", ['BYTEWIN'])
+S('BYTEWIN_rename_locals', ['C07'], 'bitstore.py', fn=rename_local('start_byte', 'first_byte'))
